@@ -113,7 +113,7 @@ class NotNotMacro(Macro):
 
     def eval(self, args, prevs=None):
         neg_arg, pos_arg = args
-        if neg_arg.arg.arg.arg == pos_arg:
+        if neg_arg == Not(Not(Not(pos_arg))):
             return Thm(Or(neg_arg, pos_arg))
         else:
             raise VeriTException("not_not", "unexpected goal: %s" % Or(*args))
